@@ -1629,21 +1629,23 @@ Qed.
 (* the entry points with an optional predicate                           *)
 Theorem api_without_predicate f nx :
   api_filter None f = EValue /\ api_filtered None f nx = EValue /\
-  same_modulo_ids (api_copy None f nx) f /\
-  ids (api_copy None f nx) = seq nx (length (ids f)).
+  api_copy None f nx = copy_result (fst (copy_f f nx)) /\
+  same_modulo_ids (fst (copy_f f nx)) f /\
+  ids (fst (copy_f f nx)) = seq nx (length (ids f)).
 Proof.
-  refine (conj eq_refl (conj eq_refl (conj _ _))).
+  refine (conj eq_refl (conj eq_refl (conj eq_refl (conj _ _)))).
   - apply copy_f_erase.
   - apply copy_f_ids.
 Qed.
 
 Theorem api_with_predicate v f nx : NoDup (ids f) ->
   api_filter (Some v) f = Ok (F v f) /\
-  (exists g, api_filtered (Some v) f nx = Ok g /\ api_copy (Some v) f nx = g /\ same_modulo_ids g (dbl v (F v f))).
+  api_filtered (Some v) f nx = copy_result (fst (add_filtered v f nx)) /\
+  api_copy (Some v) f nx = copy_result (fst (add_filtered v f nx)) /\
+  same_modulo_ids (fst (add_filtered v f nx)) (dbl v (F v f)).
 Proof.
-  intros ND. split.
-  - unfold api_filter. rewrite (filter_inplace_is_F v f ND). reflexivity.
-  - exists (fst (add_filtered v f nx)). refine (conj eq_refl (conj eq_refl _)). apply add_filtered_is_dbl_F.
+  intros ND. refine (conj _ (conj eq_refl (conj eq_refl (add_filtered_is_dbl_F v f nx)))).
+  unfold api_filter. rewrite (filter_inplace_is_F v f ND). reflexivity.
 Qed.
 
 (* ------------------------------------------------------------------ *)
